@@ -45,7 +45,7 @@ RULE = ("finite spaces (products of integer ranges / categorical / ordinal dimen
         "x num_workers 1..8 x seeds x objectives with failures x filter_failures x gather ALL/BATCH; searches run until a few evaluations "
         "past the exhaustion of the space; non-trivial = at least N proposals made (the whole space has to be enumerated without repeat)")
 
-F_REPLAY, F_PREFIX, F_FILTER, F_HASNEW = 801, 802, 803, 804
+F_REPLAY, F_PREFIX, F_FILTER, F_HASNEW, F_WRAP = 801, 802, 803, 804, 805
 STRAT = {"cl_min": 0, "cl_mean": 1, "cl_max": 2, "topk": 3, "boltzmann": 4, "qLCB": 5, "qLCBd": 6, "qUCB": 5, "qUCBd": 6}
 STRAT_NAME = {0: "cl_min", 1: "cl_mean", 2: "cl_max", 3: "topk", 4: "boltzmann", 5: "qLCB", 6: "qLCBd"}
 REJECT = {1: "rvs_calls", 2: "random_not_head_of_filtered", 3: "initial_point", 4: "no_next_x", 5: "next_x", 6: "initial_batch",
@@ -83,9 +83,14 @@ def _close(a, b):
 class Recorder:
     def __init__(self):
         self.tok, self.events, self.depth, self.cl, self.stray, self.top = {}, [], 0, [], 0, None
+        self.cops, self.in_cbo, self.ff, self.rvs_sizes = [], 0, "min", set()
+
+    canon = None  # conditional spaces: maps a point to its canonical form (inactive hyperparameters at their canonical value)
 
     def token(self, point):
         key = tuple(_norm(v) for v in point)
+        if self.canon is not None:
+            key = self.canon(key)
         t = self.tok.get(key)
         if t is None:
             t = self.tok[key] = len(self.tok) + 1
@@ -107,6 +112,7 @@ def observed(rec):
     def rvs(self, *a, **k):
         out = o_rvs(self, *a, **k)
         if rec.depth > 0:
+            rec.rvs_sizes.add((k.get("n_samples", a[0] if a else 1), len(out)))
             rec.cl.append(rec.tokens(out))
         else:
             rec.stray += 1
@@ -128,6 +134,8 @@ def observed(rec):
     def tell(self, x, y, fit=True):
         if rec.depth > 0:
             return o_tell(self, x, y, fit)
+        if not rec.in_cbo:
+            rec.cops.append([2])  # the optimizer is told directly (fit_surrogate)
         rec.depth, rec.cl = 1, []
         try:
             out = o_tell(self, x, y, fit)
@@ -148,13 +156,45 @@ def observed(rec):
         rec.events.append([2, rec.cl])
         return out
 
+    # the CBO-level calls (public Search.ask / Search.tell): the input of the wrapper model (Model.wrap, 805)
+    from deephyper.hpo._search import Search
+
+    s_ask, s_tell = Search.ask, Search.tell
+
+    def _is_failure(obj):
+        if isinstance(obj, str):
+            return obj[:1] == "F"
+        try:
+            return any(isinstance(o, str) and o[:1] == "F" for o in obj)
+        except TypeError:
+            return False
+
+    def search_ask(self, n=1):
+        rec.cops.append([0])
+        rec.in_cbo += 1
+        try:
+            return s_ask(self, n)
+        finally:
+            rec.in_cbo -= 1
+
+    def search_tell(self, results):
+        objs = [tuple(r)[1] for r in results]
+        rec.cops.append([1, any((not _is_failure(o)) or rec.ff != "ignore" for o in objs), len(objs) > 0])
+        rec.in_cbo += 1
+        try:
+            return s_tell(self, results)
+        finally:
+            rec.in_cbo -= 1
+
     Optimizer.ask, Optimizer.tell, Space.rvs = ask, tell, rvs
+    Search.ask, Search.tell = search_ask, search_tell
     if o_upd is not None:
         Optimizer.update_next = update_next
     try:
         yield
     finally:
         Optimizer.ask, Optimizer.tell, Space.rvs = o_ask, o_tell, o_rvs
+        Search.ask, Search.tell = s_ask, s_tell
         if o_upd is not None:
             Optimizer.update_next = o_upd
 
@@ -166,32 +206,54 @@ def dim_values(d):
     return list(d[1])
 
 
-def space_size(dims):
+def space_size(dims, conds=None):
     n = 1
     for d in dims:
         if d[0] == "real":
             return None
         n *= len(dim_values(d))
+    if conds:
+        # conditional hyperparameters: an inactive one takes its canonical (first / lower bound) value: count the canonical forms
+        import itertools
+
+        seen = set()
+        for pt in itertools.product(*[range(len(dim_values(d))) for d in dims]):
+            pt = list(pt)
+            for child, parent, vals in conds:
+                if pt[parent] not in vals:
+                    pt[child] = 0
+            seen.add(tuple(pt))
+        n = len(seen)
     return n
 
 
-def mk_problem(dims):
+def mk_problem(dims, conds=None):
     from deephyper.hpo import HpProblem
 
     p = HpProblem()
+    hps = []
     for i, d in enumerate(dims):
         name = "x%d" % i
         if d[0] == "int":
-            p.add_hyperparameter((int(d[1]), int(d[2])), name)
-        elif d[0] == "real":
-            p.add_hyperparameter((float(d[1]), float(d[2])), name)
-        elif d[0] == "catf":  # categorical hyperparameter with numeric (float / mixed) choices
-            import ConfigSpace.hyperparameters as csh
+            hps.append(p.add_hyperparameter((int(d[1]), int(d[2])), name))
+            continue
+        hps.append(_add_hp(p, d, name))
+    for child, parent, vals in conds or []:
+        import ConfigSpace as cs
 
-            p.add_hyperparameter(csh.CategoricalHyperparameter(name, choices=list(d[1])))
-        else:  # "cat": list of strings -> categorical ; "ord" / "ordmix": list of numbers -> ordinal (ordmix: ints and floats mixed)
-            p.add_hyperparameter(list(d[1]), name)
+        p.add_condition(cs.InCondition(hps[child], hps[parent], [dim_values(dims[parent])[v] for v in vals]))
     return p
+
+
+def _add_hp(p, d, name):
+    if d[0] == "real":
+        return p.add_hyperparameter((float(d[1]), float(d[2])), name)
+    if d[0] == "catf":  # categorical hyperparameter with numeric (float / mixed) choices
+        import ConfigSpace.hyperparameters as csh
+
+        return p.add_hyperparameter(csh.CategoricalHyperparameter(name, choices=list(d[1])))
+    # "cat": list of strings -> categorical ; "ord" / "ordmix": list of numbers -> ordinal (ordmix: ints and floats mixed)
+    return p.add_hyperparameter(list(d[1]), name)
 
 
 def index_vector(dims, params):
@@ -214,20 +276,27 @@ def run_cbo(case):
     count = [0]
     fail = case.get("fail", ["none"])
 
-    async def run(job):
-        iv = index_vector(dims, job.parameters)
+    def objective(params):
+        iv = index_vector(dims, params)
         count[0] += 1
         k = count[0]
-        for _ in range((sum(iv) + k) % (case.get("yields", 0) + 1)):
-            await asyncio.sleep(0)
         s = sum((i + 1) * v for i, v in enumerate(iv))
         if fail[0] == "mod" and s % fail[1] == fail[2]:
-            return "F_fail"
+            return k, iv, "F_fail"
         if fail[0] == "after" and k > fail[1]:
-            return "F_fail"
+            return k, iv, "F_fail"
         if fail[0] == "window" and fail[1] < k <= fail[2]:
-            return "F_fail"
-        return float(sum(w * v for w, v in zip(case["weights"], iv)))
+            return k, iv, "F_fail"
+        y = float(sum(w * v for w, v in zip(case["weights"], iv)))
+        if case.get("moo"):
+            return k, iv, (y, float(-sum(iv)))
+        return k, iv, y
+
+    async def run(job):
+        k, iv, y = objective(job.parameters)
+        for _ in range((sum(iv) + k) % (case.get("yields", 0) + 1)):
+            await asyncio.sleep(0)
+        return y
 
     rec = Recorder()
     d = tempfile.mkdtemp(prefix="vp_c08_")
@@ -239,18 +308,69 @@ def run_cbo(case):
             kw = {}
             if case["sur"] in ("ET", "RF"):
                 kw["surrogate_model_kwargs"] = dict(n_estimators=case.get("trees", 8), min_samples_split=2)
-            search = CBO(mk_problem(dims), ev, random_state=case["seed"], log_dir=d, surrogate_model=case["sur"],
+            conds = case.get("conds")
+
+            def mk_search(evaluator, log_dir, seed):
+                sr = CBO(mk_problem(dims, conds), evaluator, random_state=seed, log_dir=log_dir, surrogate_model=case["sur"],
                          multi_point_strategy=case["strat"], acq_func=case.get("acq", "UCBd"), n_points=case["npts"],
                          n_initial_points=case["ninit"], filter_failures=case.get("ff", "min"),
+                         acq_optimizer=case.get("acq_opt", "auto"), update_prior=bool(case.get("update_prior")),
                          acq_optimizer_freq=case.get("freq", 10), **kw)
-            if case.get("gather") == "ALL":
-                search.gather_type = "ALL"
+                if case.get("gather") == "ALL":
+                    sr.gather_type = "ALL"
+                return sr
+
+            mode = case.get("mode", "search")
+            rec.ff = case.get("ff", "min")
+            if conds:
+                # two points that differ only in an inactive hyperparameter are the same configuration
+                def canon(key):
+                    key = list(key)
+                    for child, parent, vals in conds:
+                        if dim_values(dims[parent]).index(key[parent]) not in vals:
+                            key[child] = dim_values(dims[child])[0]
+                    return tuple(key)
+
+                rec.canon = canon
+            df0 = None
+            if mode == "warm":
+                # a first search (not observed) leaves a checkpoint; the observed search is warm-started from it (fit_surrogate)
+                d0 = os.path.join(d, "first")
+                ev0 = Evaluator.create(run, method="serial", method_kwargs={"num_workers": case["nw"]})
+                df0 = mk_search(ev0, d0, case["seed"] + 1).search(max_evals=case["warm_evals"])
+                with contextlib.suppress(Exception):
+                    ev0.close()
+            search = mk_search(ev, os.path.join(d, "main"), case["seed"])
             with observed(rec):
                 try:
+                    df = None
+                    if mode == "warm":
+                        search.fit_surrogate(df0)
                     # several search() calls on the same object (budgets accumulate); strict: MaximumJobsSpawnReached may end a call
                     # in the middle of submitting an asked batch
                     for n_call, strict in case.get("calls") or [[case["evals"], False]]:
                         df = search.search(max_evals=n_call, max_evals_strict=bool(strict))
+                    if mode == "asktell":
+                        # the public ask / tell interface driven by the caller, in any order (asks without tell, partial tells);
+                        # the caller edits the dictionaries it got from ask() after use
+                        pending = []
+                        for op in case["ops"]:
+                            if op[0] == "ask":
+                                got = search.ask(op[1])
+                                pending.extend((dict(g), g) for g in got)
+                            elif op[0] == "tell":
+                                k = min(op[1], len(pending))
+                                batch, pending = pending[:k], pending[k:]
+                                results = [(cfgc, objective(cfgc)[2]) for cfgc, _g in batch]
+                                for _c, g in batch:
+                                    for key in list(g):
+                                        g[key] = None  # what ask() returned belongs to the caller
+                                search.tell(results)
+                            else:
+                                df = search.search(max_evals=op[1], max_evals_strict=bool(op[2]))
+                        df = None  # the rows of the results only cover the search() calls
+                    if df is None:
+                        raise _NoRows()
                     cols = ["p:x%d" % i for i in range(len(dims))]
                     df = df.assign(_jid=[int(str(j).split(".")[-1]) for j in df["job_id"]]).sort_values("_jid")
                     # the results are read back from results.csv: floats may differ by an ulp (pandas' parser): a row is identified
@@ -267,6 +387,8 @@ def run_cbo(case):
                         else:
                             rows_t.append(-1)
                     rows = [[t for t, _ in praw], rows_t]
+                except _NoRows:
+                    rows = None
                 except Exception as e:  # noqa: BLE001 - reported as a failure of the case
                     error = "%s: %s" % (type(e).__name__, str(e)[:300])
             with contextlib.suppress(Exception):
@@ -275,7 +397,12 @@ def run_cbo(case):
         shutil.rmtree(d, ignore_errors=True)
     top = rec.top
     cfg = [top is not None and top.base_estimator_ is None, top is not None and top.acq_optimizer != "sampling", True]
-    return rec, cfg, rows, error
+    n0 = int(top.n_initial_points_) if top is not None else case["ninit"]
+    return rec, cfg, rows, error, n0
+
+
+class _NoRows(Exception):
+    pass
 
 
 def locate(events, idx):
@@ -289,7 +416,7 @@ def locate(events, idx):
     return len(events)
 
 
-def judge(res, cfg, n0, inits, events, N, extra_rows=None):
+def judge(res, cfg, n0, inits, events, N, extra_rows=None, strict_coverage=False):
     """Shared verdict of the trace streams: direct oracle first, then acceptance."""
     events = [e[:5] for e in events]
     props = [t for e in events if e[0] == 0 for t in e[4]]
@@ -304,9 +431,11 @@ def judge(res, cfg, n0, inits, events, N, extra_rows=None):
         if acc or ei < ridx:
             h, b = hb[ei]
             where = "%s/%s" % (BRANCH.get(b, str(b)), HYP.get(h, str(h)))
-            if h == 1:  # the candidate sample did not contain any unproposed point: the repeat is allowed
+            if h == 1 and not strict_coverage:  # the candidate sample did not contain any unproposed point: the repeat is allowed
                 res["desc"].append("coverage_miss")
                 where = None
+            # strict_coverage: 40 x N uniform candidates miss an unproposed configuration with probability < e^-40; a sample that
+            # contains nothing new although the space is not exhausted means that the sampling itself is broken: not excused
         else:
             where = "rejected:" + REJECT.get(rcode, str(rcode))
         if where is not None:
@@ -357,23 +486,38 @@ def _short(e):
 
 
 def check_cbo(case):
-    N = space_size(case["dims"])
+    N = space_size(case["dims"], case.get("conds"))
     res = dict(ok=True, kind="oracle", clause="", nontrivial=False,
                sig=dict(strategy=case["strat"], surrogate=case["sur"], ff=case.get("ff", "min"),
                         calls="strict" if any(st for _, st in case.get("calls") or []) else ("multi" if case.get("calls") else "one")),
                desc=["sur=" + case["sur"], "strat=" + case["strat"], "nw=%d" % case["nw"], "N=%s" % N, "ff=" + case.get("ff", "min"),
                      "dims=" + "+".join(sorted(set(d[0] for d in case["dims"]))),
-                     "calls=%d" % len(case.get("calls") or [0]), "strict" if any(st for _, st in case.get("calls") or []) else "not_strict", "fail=" + case.get("fail", ["none"])[0], "gather=" + case.get("gather", "BATCH")])
-    rec, cfg, rows, error = run_cbo(case)
+                     "calls=%d" % len(case.get("calls") or [0]), "mode=" + case.get("mode", "search"), "acq=" + case.get("acq", "UCBd"), "acq_opt=" + case.get("acq_opt", "auto"),
+                     "cond" if case.get("conds") else "product", "moo" if case.get("moo") else "single_objective", "strict" if any(st for _, st in case.get("calls") or []) else "not_strict", "fail=" + case.get("fail", ["none"])[0], "gather=" + case.get("gather", "BATCH")])
+    rec, cfg, rows, error, n0 = run_cbo(case)
     if error is not None:
         kind = error.split(":")[0]
         res["sig"]["exc"] = kind
         return dict(res, ok=False, clause="exception:" + kind, detail=dict(error=error, events=[_short(e) for e in rec.events][-6:]))
     if rec.stray:
         res["desc"].append("stray_rvs")
-    return judge(res, cfg, case["ninit"], [], rec.events, N, extra_rows=rows)
+    # every candidate sample has the size that was asked for (n_points)
+    bad = sorted(x for x in rec.rvs_sizes if x[0] != x[1] or x[0] != case["npts"])
+    if bad:
+        return dict(res, ok=False, kind="corr", clause="rvs_size", detail=dict(asked_got=bad, n_points=case["npts"]))
+    # the CBO wrapper (Model.wrap): the kinds of the optimizer-level events are the ones predicted from the CBO-level calls, and alternate
+    kinds = [e[0] for e in rec.events]
+    same, predicted, alternates = model().call(F_WRAP, [rec.cops, kinds])
+    out = judge(res, cfg, n0, [], rec.events, N, extra_rows=rows, strict_coverage=N is not None and not case.get("update_prior"))
+    if out["ok"] and (not same or not alternates):
+        out["sig"]["where"] = "wrapper"
+        return dict(out, ok=False, kind="corr", clause="wrapper_kinds" if not same else "not_alternating",
+                    detail=dict(calls=rec.cops, observed=kinds, predicted=predicted))
+    return out
 
 
+EXOTIC = [[1.0, 1.0000000000000002, 1.0000001, 0.0], [0.1, 0.30000000000000004, 0.3, 1e-300], [9007199254740992.0, 9007199254740994.0, 5, -9007199254740994.0],
+          [0, 1e-12, -1e-12, 1], [1e16, 1e16 + 2, 1.5]]
 MIXED = [[0.5, 1, 2], [1, 2.5, 4], [0, 0.25, 1, 3], [1, 2, 4.0], [0.1, 1, 10, 100], [2, 3.5]]
 FLOATCAT = [[0.5, 1.0, 2.0], [0.1, 0.2, 0.4, 0.8], [1.0, 2.0], [0.5, 1, 2]]
 
@@ -453,7 +597,39 @@ def gen_cbo(count, surrogates, big=False, cont=False):
             if sur == "GP":
                 c["evals"] = min(c["evals"], 28)
                 c["freq"] = rng.choice([1, 2, 10])
-            if i % 4 == 2:
+            if not cont and sur != "GP":
+                if len(dims) >= 2 and rng.random() < 0.25:
+                    # the last hyperparameter is active only for some values of the first one
+                    npar = len(dim_values(dims[0]))
+                    vals = sorted(rng.sample(range(npar), rng.randint(1, max(1, npar - 1))))
+                    if len(vals) < npar:
+                        c["conds"] = [[len(dims) - 1, 0, vals]]
+                        N = space_size(dims, c["conds"])
+                        c["evals"] = min(N + rng.randint(0, 2 * nw), 90)
+                if rng.random() < 0.12:
+                    c["moo"] = True
+                if rng.random() < 0.08:
+                    c["update_prior"] = True
+                if sur != "DUMMY" and rng.random() < 0.2:
+                    c["acq"] = rng.choice(["PI", "gp_hedge", "EI"])
+                if tier == "thorough" and sur == "ET" and rng.random() < 0.08 and all(d[0] in ("int", "cat") for d in dims):
+                    # the genetic acquisition optimizer (result not restricted to the candidates: F12 fallback). Numeric ordinals are left
+                    # out: "ga" returns values between the ordinal's values (not a member of the space - a C02 matter, reported)
+                    c["acq_opt"] = "ga"
+            if i % 8 == 5 and not cont:
+                # warm start: the observed search is fitted on the checkpoint of another search (n_initial_points becomes 0)
+                c["mode"], c["warm_evals"] = "warm", rng.randint(2, 8)
+                if c["ff"] == "ignore" and fail[0] != "none":
+                    c["ff"] = "mean"  # fit_surrogate tells the failures of the checkpoint even with filter_failures="ignore" and the fit raises (C06's business)
+            elif i % 8 == 7 and not cont:
+                # the public ask / tell interface after a first search() call, in any order
+                c["mode"], c["calls"] = "asktell", [[rng.randint(1, max(1, min(c["evals"], ninit + nw))), rng.random() < 0.4]]
+                ops = []
+                for _k in range(rng.randint(3, 10)):
+                    r = rng.random()
+                    ops.append(["ask", rng.randint(1, 4)] if r < 0.5 else ["tell", rng.randint(1, 5)] if r < 0.9 else ["search", rng.randint(1, 4), rng.random() < 0.5])
+                c["ops"] = ops
+            elif i % 4 == 2:
                 # the same budget spent in 2..4 search() calls, some of them strict (the call may stop between an ask and its tell)
                 left, calls = c["evals"], []
                 for _k in range(rng.randint(2, 4)):
@@ -470,6 +646,15 @@ def gen_cbo(count, surrogates, big=False, cont=False):
 
 
 def shrink_cbo(case):
+    if case.get("ops"):
+        ops = case["ops"]
+        for i in range(len(ops) - 1, -1, -1):
+            yield dict(case, ops=ops[:i] + ops[i + 1:])
+    for key in ("moo", "update_prior", "conds", "acq_opt"):
+        if case.get(key):
+            yield {k: v for k, v in case.items() if k != key}
+    if case.get("mode") == "warm" and case["warm_evals"] > 1:
+        yield dict(case, warm_evals=case["warm_evals"] - 1)
     calls = case.get("calls")
     if calls:
         for i in range(len(calls)):
@@ -486,7 +671,7 @@ def shrink_cbo(case):
         yield dict(case, nw=case["nw"] - 1)
     if case["ninit"] > 1:
         yield dict(case, ninit=case["ninit"] - 1)
-    if len(case["dims"]) > 1:
+    if len(case["dims"]) > 1 and not case.get("conds"):
         for i in range(len(case["dims"])):
             yield dict(case, dims=case["dims"][:i] + case["dims"][i + 1:], weights=case["weights"][:i] + case["weights"][i + 1:])
     if case.get("yields"):
@@ -658,6 +843,10 @@ def check_filter(case):
         if isinstance(v, bool):
             return [v, np.bool_(v)][k % 2]
         if isinstance(v, (int, float)):
+            if v == 0:
+                return [v, 0, 0.0, -0.0, np.float64(-0.0), np.int64(0)][k % 6]
+            if abs(v) >= 2 ** 31:
+                return [v, np.int64(v) if isinstance(v, int) else np.float64(v)][k % 2]  # no float rendering of a big int: it would be another number
             if float(v) == int(v):
                 return [v, int(v), float(v), np.int64(int(v)), np.float64(v), np.int32(int(v))][k % 6]
             return [v, float(v), np.float64(v)][k % 3]
@@ -698,6 +887,9 @@ def gen_filter(count):
             dims = gen_dims(rng, 2, 30, mixed=(i % 3 == 1))
             if i % 7 == 3:
                 dims = dims[:2] + [["catf", [True, False]]]
+            if i % 5 == 2:
+                # values one ulp / 1e-7 apart, tiny values, magnitudes past 2^53 (distinct configurations; integer categories that large cannot be declared: skopt encodes them as int32), -0.0 for 0 (the same one)
+                dims = dims[:1] + [["catf", list(rng.choice(EXOTIC))]]
             N = space_size(dims)
             ns = rng.choice([0, 1, 2, N // 2, N, 2 * N])
             c = dict(dims=dims, sampled=[[rng.randrange(8) for _ in dims] for _ in range(ns)],
